@@ -175,6 +175,17 @@ def install(tr: Translator):
             return t_kmapiter(tr_, ty, name, dims, storage, g)
         return old_iter(tr_, ty, name, dims, storage, g)
     tm["Iter"] = iter_dispatch
+    old_into = tm.get("IntoIter")
+
+    def intoiter_dispatch(tr_, ty, name, dims, storage, g):
+        if "hash_map" in ty.full or "hash::map" in ty.full:
+            return t_kmapiter(tr_, ty, name, dims, storage, g)
+        if old_into:
+            return old_into(tr_, ty, name, dims, storage, g)
+        raise TranslateError(f"no IntoIter model for {ty.full}")
+    tm["IntoIter"] = intoiter_dispatch
+    tm["OccupiedEntry"] = t_guard
+    tm["VacantEntry"] = t_guard
     old_range = tm.get("Range")
 
     def range_dispatch(tr_, ty, name, dims, storage, g):
@@ -222,7 +233,7 @@ def m_dash_get(tr, c):
     dd = tr.lv(Loc(n.discr, d.idxs))
     g = n.variants[si][1].fields[0]
     atomic_begin(tr)
-    tr.emit(f"__CPROVER_assume(!{lk});")
+    tr.emit(f"__CPROVER_assume(!{lk} || g_gate == 9);")
     tr.emit(f"if ({pres}) {{ {lk} = 1; {dd} = {si}; }} else {{ {dd} = {ni}; }}")
     cp = _bind_guard(tr, g, d.idxs, slot)
     atomic_end(tr)
@@ -231,29 +242,47 @@ def m_dash_get(tr, c):
 
 
 def t_entry(tr, ty, name, dims, storage, g):
-    return t_guard(tr, ty, name, dims, storage, g)
+    """dashmap::Entry: enum { Occupied(OccupiedEntry), Vacant(VacantEntry) }; both variants are guards of the same locked slot"""
+    e = tr.make_enum(ty, name, dims, storage, [("Occupied", []), ("Vacant", [])], g)
+    for vn, vs in e.variants:
+        gd = t_guard(tr, None, f"{name}_{vn}_g", dims, storage, g)
+        vs.fields.append(gd)
+        vs.names.append("0")
+    return e
 
 
-@model("DashMap::entry", doc="DashMap::entry(key): takes the key's slot lock (Entry holds it)")
+def _entry_guard(tr, v) -> Loc:
+    """the guard inside an Entry value (enum) or a bare entry guard"""
+    loc = v.loc if isinstance(v, VLoc) else tr.deref(v)
+    while loc.node.kind == "ref":
+        loc = tr.deref(VLoc(loc))
+    if loc.node.kind == "enum":
+        return Loc(loc.node.variants[0][1].fields[0], loc.idxs)      # both variants are bound identically
+    return loc
+
+
+@model("DashMap::entry", doc="DashMap::entry(key): takes the key's slot lock; Occupied iff the key is present (the Entry holds the lock)")
 def m_dash_entry(tr, c):
     dm = _dash(tr, c.args[0])
     k = bound_key(tr, key_of(tr, c.args[1]), dm.node.f("slots").cap, "DashMap")
     slot = _slot(tr, dm, k)
     lk = tr.lv(Loc(slot.node.f("locked"), slot.idxs))
+    pres = tr.lv(Loc(slot.node.f("data").f("present"), slot.idxs))
     d = c.dest()
-    g = d.node
+    e = d.node
     atomic_begin(tr)
-    tr.emit(f"__CPROVER_assume(!{lk}); {lk} = 1;")
-    cp = _bind_guard(tr, g, d.idxs, slot)
+    tr.emit(f"__CPROVER_assume(!{lk} || g_gate == 9); {lk} = 1; {tr.lv(Loc(e.discr, d.idxs))} = {pres} ? {e.vindex('Occupied')} : {e.vindex('Vacant')};")
+    cp = _bind_guard(tr, None, d.idxs, slot)
     atomic_end(tr)
-    tr.store(Loc(g.fields[0], d.idxs), VRef(slot.node, slot.idxs))
-    tr.store(Loc(g.fields[1], d.idxs), VRef(cp, []))
+    for _vn, vs in e.variants:
+        g = vs.fields[0]
+        tr.store(Loc(g.fields[0], d.idxs), VRef(slot.node, slot.idxs))
+        tr.store(Loc(g.fields[1], d.idxs), VRef(cp, []))
 
 
-@model("Entry::or_default", "Entry::or_insert_with", "Entry::or_insert", doc="Entry -> RefMut; inserts the default value when vacant")
+@model("Entry::or_default", "Entry::or_insert_with", "Entry::or_insert", doc="Entry -> RefMut; inserts the value when vacant")
 def m_entry_or_default(tr, c):
-    e = c.args[0]
-    g = e.loc if isinstance(e, VLoc) else tr.deref(e)
+    g = _entry_guard(tr, c.args[0])
     cp = tr.deref(VLoc(Loc(g.node.fields[1], g.idxs)))
     pres = tr.lv(Loc(cp.node.f("present"), cp.idxs))
     tr.emit(f"if (!{pres}) {{ {pres} = 1;")
@@ -268,7 +297,91 @@ def m_entry_or_default(tr, c):
     tr.copy(d, g)          # the RefMut takes over the Entry's lock
 
 
-@model("<Ref as Deref>::deref", "<RefMut as Deref>::deref", "<RefMut as DerefMut>::deref_mut", "Ref::value", "RefMut::value_mut",
+@model("VacantEntry::insert", doc="VacantEntry::insert(v) -> RefMut")
+def m_vacant_insert(tr, c):
+    g = _entry_guard(tr, c.args[0])
+    cp = tr.deref(VLoc(Loc(g.node.fields[1], g.idxs)))
+    tr.emit(f"{tr.lv(Loc(cp.node.f('present'), cp.idxs))} = 1;")
+    tr.store(Loc(cp.node.f("val"), cp.idxs), c.args[1])
+    tr.copy(c.dest(), g)
+
+
+@model("OccupiedEntry::into_ref", doc="OccupiedEntry -> RefMut")
+def m_occ_into_ref(tr, c):
+    tr.copy(c.dest(), _entry_guard(tr, c.args[0]))
+
+
+@model("OccupiedEntry::get", "OccupiedEntry::get_mut", doc="&V of the locked slot")
+def m_occ_get(tr, c):
+    g = _entry_guard(tr, c.args[0])
+    cp = tr.deref(VLoc(Loc(g.node.fields[1], g.idxs)))
+    c.ret(VRef(cp.node.f("val"), cp.idxs))
+
+
+@model("DashMap::insert", doc="DashMap::insert(k, v) -> previous value (lock taken and released)")
+def m_dash_insert(tr, c):
+    dm = _dash(tr, c.args[0])
+    k = bound_key(tr, key_of(tr, c.args[1]), dm.node.f("slots").cap, "DashMap")
+    slot = _slot(tr, dm, k)
+    lk = tr.lv(Loc(slot.node.f("locked"), slot.idxs))
+    data = slot.node.f("data")
+    pres = tr.lv(Loc(data.f("present"), slot.idxs))
+    d = c.dest()
+    atomic_begin(tr)
+    tr.emit(f"__CPROVER_assume(!{lk} || g_gate == 9);")
+    if d is not None and d.node.kind == "enum":
+        si, ni = d.node.vindex("Some"), d.node.vindex("None")
+        tr.emit(f"{tr.lv(Loc(d.node.discr, d.idxs))} = {pres} ? {si} : {ni};")
+        tr.copy(Loc(d.node.variants[si][1].fields[0], d.idxs), Loc(data.f("val"), slot.idxs))
+    tr.store(Loc(data.f("val"), slot.idxs), c.args[2])
+    tr.emit(f"{pres} = 1;")
+    visible(tr)
+    atomic_end(tr)
+
+
+@model("DashMap::remove", doc="DashMap::remove(k) -> Option<(K, V)> (lock taken and released)")
+def m_dash_remove(tr, c):
+    dm = _dash(tr, c.args[0])
+    k = bound_key(tr, key_of(tr, c.args[1]), dm.node.f("slots").cap, "DashMap")
+    slot = _slot(tr, dm, k)
+    lk = tr.lv(Loc(slot.node.f("locked"), slot.idxs))
+    data = slot.node.f("data")
+    pres = tr.lv(Loc(data.f("present"), slot.idxs))
+    d = c.dest()
+    atomic_begin(tr)
+    tr.emit(f"__CPROVER_assume(!{lk} || g_gate == 9);")
+    if d is not None and d.node.kind == "enum":
+        si, ni = d.node.vindex("Some"), d.node.vindex("None")
+        tr.emit(f"{tr.lv(Loc(d.node.discr, d.idxs))} = {pres} ? {si} : {ni};")
+        tup = d.node.variants[si][1].fields[0]
+        if tup.kind == "struct" and len(tup.fields) == 2:
+            tr.copy(Loc(tup.fields[1], d.idxs), Loc(data.f("val"), slot.idxs))
+    tr.emit(f"{pres} = 0;")
+    _clear_value(tr, Loc(data.f("val"), slot.idxs))
+    visible(tr)
+    atomic_end(tr)
+
+
+def _clear_value(tr, loc):
+    """reset a removed map value to its empty state (so that a later re-insert starts from Default)"""
+    n = loc.node
+    if n.kind == "struct" and n.tag == "DashMap":
+        sl = n.f("slots")
+        for k in range(sl.cap):
+            tr.emit(f"{tr.lv(Loc(sl.elem.f('data').f('present'), loc.idxs + [str(k)]))} = 0;")
+
+
+@model("DashMap::new", "<DashMap as Default>::default", "DashMap::default", "DashMap::with_hasher", doc="empty map")
+def m_dash_new(tr, c):
+    d = c.dest()
+    if d is None:
+        return
+    sl = d.node.f("slots")
+    for k in range(sl.cap):
+        tr.emit(f"{tr.lv(Loc(sl.elem.f('locked'), d.idxs + [str(k)]))} = 0; {tr.lv(Loc(sl.elem.f('data').f('present'), d.idxs + [str(k)]))} = 0;")
+
+
+@model("<Ref as Deref>::deref", "<RefMut as Deref>::deref", "<RefMut as DerefMut>::deref_mut", "Ref::value", "RefMut::value_mut", "RefMut::value",
        doc="DashMap guard -> the value of the locked slot")
 def m_ref_deref(tr, c):
     g = tr.deref(c.args[0])
@@ -289,7 +402,7 @@ def m_dash_contains(tr, c):
     lk = tr.lv(Loc(slot.node.f("locked"), slot.idxs))
     d = c.dest()
     atomic_begin(tr)
-    tr.emit(f"__CPROVER_assume(!{lk}); {tr.lv(d)} = {tr.lv(Loc(slot.node.f('data').f('present'), slot.idxs))};")
+    tr.emit(f"__CPROVER_assume(!{lk} || g_gate == 9); {tr.lv(d)} = {tr.lv(Loc(slot.node.f('data').f('present'), slot.idxs))};")
     atomic_end(tr)
 
 
@@ -544,3 +657,41 @@ def m_kmiter_next(tr, c):
 
 
 REG.add("Iter::next:KMapIter", m_kmiter_next, "keyed HashMap iterator: solver-chosen unvisited entry")
+
+
+@model("<HashMap as IntoIterator>::into_iter", "<AHashMap as IntoIterator>::into_iter", doc="by-value iteration of a keyed map (entries yielded as (K, V))")
+def m_km_into_iter(tr, c):
+    v = c.args[0]
+    m = v.loc if isinstance(v, VLoc) else _km(tr, v)
+    d = c.dest()
+    it = d.node
+    tr.store(Loc(it.f("map"), d.idxs), VRef(m.node, m.idxs))
+    vis = it.f("visited")
+    for k in range(vis.cap):
+        tr.emit(f"{vis.elem.name}{sub(d.idxs + [str(k)])} = 0;")
+    it.extra["byvalue"] = True
+
+
+def m_kmintoiter_next(tr, c):
+    itl = tr.deref(c.args[0])
+    it = itl.node
+    m = tr.deref(VLoc(Loc(it.f("map"), itl.idxs)))
+    p, vals, keys = m.node.f("present"), m.node.f("vals"), m.node.f("keys")
+    vis = it.f("visited")
+    k = tr.tmp("usize", "pick")
+    rem = " || ".join(f"({p.elem.name}{sub(m.idxs + [str(j)])} && !{vis.elem.name}{sub(itl.idxs + [str(j)])})" for j in range(p.cap))
+    d = c.dest()
+    n = d.node
+    si, ni = n.vindex("Some"), n.vindex("None")
+    dd = tr.lv(Loc(n.discr, d.idxs))
+    cur = tr.lv(Loc(it.f("cur"), itl.idxs))
+    tr.emit(f"if ({rem}) {{")
+    tr.emit(f"  {k} = nondet_usize(); __CPROVER_assume({k} < {p.cap} && {p.elem.name}{sub(m.idxs + [k])} && !{vis.elem.name}{sub(itl.idxs + [k])});")
+    tr.emit(f"  {vis.elem.name}{sub(itl.idxs + [k])} = 1; {cur} = {k}; {dd} = {si};")
+    tr.emit(f"}} else {{ {dd} = {ni}; {cur} = 0; }}")
+    tup = n.variants[si][1].fields[0]
+    tr.copy(Loc(tup.fields[0], d.idxs), Loc(keys.elem, m.idxs + [cur]))
+    tr.copy(Loc(tup.fields[1], d.idxs), Loc(vals.elem, m.idxs + [cur]))
+
+
+REG.add("<IntoIter as Iterator>::next", m_kmintoiter_next, "by-value keyed map iterator: solver-chosen unvisited entry")
